@@ -416,10 +416,12 @@ impl<'a> ReMatcher<'a> {
     }
 
     pub(crate) fn is_duplicate_zero_length_match(&self, repeat: &Repeat, position: usize) -> bool {
-        self.state
-            .borrow_mut()
+        let mut state = self.state.borrow_mut();
+        let mut backrefs = state.start_backref.clone();
+        backrefs.extend(state.end_backref.iter());
+        state
             .history
-            .is_duplicate_zero_length_match(repeat, position)
+            .is_duplicate_zero_length_match(repeat, position, backrefs)
     }
 
     // capture state related
